@@ -429,3 +429,144 @@ func init() {
 		Assumptions: []string{"the clock advances by at least 1 µs between events (ping-id collisions of a frozen clock are outside the alphabet)", "receiver/sender threads eager; one event at a time"},
 	})
 }
+
+// ---- a new measurement requested back to back with the answer to an outstanding ping:
+// whatever handles the two must not touch the measurement's state from two goroutines
+// (race build), and the report that follows belongs to the new request ------------------
+
+func runLatencyOverlap(variant int, ch vrt.Chooser, rw *raceWatch, seen map[string]bool) (out explore.Outcome) {
+	key, _ := crypto.HexToECDSA(c18Key)
+	w := world.New(world.Config{PrivateKey: key, ClientID: "client-7"}, ch)
+	s := w.S
+	s.EagerLabels = []string{eagerPrefix}
+	s.NoPreempt = true
+	x := &Ctx{W: w, C: map[string]*world.Client{}, J: map[string]JoinInfo{}, Vars: map[string]any{}}
+	fail := func(oracle, detail, f string, a ...any) {
+		x.V = append(x.V, explore.Violation{Oracle: oracle, Detail: detail, Info: fmt.Sprintf(f, a...)})
+	}
+	x.conn("a")
+	c := x.C["a"]
+	x.join("a", "")
+	nextPing := func() (uint32, bool) {
+		for _, r := range c.Take() {
+			if m, ok := r.Msg.(*hagallpb.Response); ok && r.Type == 38 {
+				return m.RequestId, true
+			}
+		}
+		return 0, false
+	}
+	start := func(wallet string, n uint32) uint32 {
+		rid := c.NextReqID()
+		c.SendMsg(&hagallpb.SignedLatencyRequest{Type: hagallpb.MsgType_MSG_TYPE_SIGNED_LATENCY_REQUEST, Timestamp: w.NextTS(), RequestId: rid, IterationCount: n, WalletAddress: wallet})
+		return rid
+	}
+	answer := func(id uint32) {
+		c.SendMsg(&hagallpb.Response{Type: hagallpb.MsgType_MSG_TYPE_PING_RESPONSE, Timestamp: w.NextTS(), RequestId: id})
+	}
+	start("0xAAA1", 3)
+	w.Run()
+	p, ok := nextPing()
+	// answer `variant` rounds of the first measurement properly
+	for i := 0; ok && i < variant; i++ {
+		s.Advance(time.Millisecond)
+		answer(p)
+		w.Run()
+		p, ok = nextPing()
+	}
+	if ok {
+		s.Advance(time.Millisecond)
+		// back to back: the new request and the answer to the outstanding ping of the old one
+		s.NoPreempt = false
+		s.ForgetLastRun()
+		rid2 := start("0xBBB2", 3)
+		answer(p)
+		w.Run()
+		s.NoPreempt = true
+		// play the new measurement to its end
+		var final []*hagallpb.SignedLatencyResponse
+		for round := 0; round < 8; round++ {
+			var ping uint32
+			have := false
+			for _, r := range c.Take() {
+				switch m := r.Msg.(type) {
+				case *hagallpb.Response:
+					if r.Type == 38 {
+						ping, have = m.RequestId, true
+					}
+				case *hagallpb.SignedLatencyResponse:
+					final = append(final, m)
+				}
+			}
+			if !have {
+				break
+			}
+			s.Advance(time.Millisecond)
+			answer(ping)
+			w.Run()
+		}
+		for _, r := range c.Take() {
+			if m, ok := r.Msg.(*hagallpb.SignedLatencyResponse); ok {
+				final = append(final, m)
+			}
+		}
+		n2 := 0
+		for _, f := range final {
+			if f.RequestId == rid2 {
+				n2++
+				var d hagallpb.LatencyData
+				if err := proto.Unmarshal(f.Data, &d); err != nil || d.WalletAddress != "0xBBB2" || d.IterationCount != 3 {
+					fail("report", "not-bound-to-request", "the report answering the second request (wallet 0xBBB2, 3 rounds) names wallet %q and %d rounds (%v)", d.WalletAddress, d.IterationCount, err)
+				}
+			}
+		}
+		if n2 != 1 {
+			fail("report", fmt.Sprintf("restarted-measurement-reports:%d", n2), "a measurement restarted while a ping of the previous one was outstanding, then played to its end, was answered with %d reports", n2)
+		}
+	}
+	for _, r := range rw.fresh() {
+		if !seen[r.Sig] {
+			seen[r.Sig] = true
+			fail("race", r.Sig, "unsynchronised conflicting accesses while a restart and a ping answer are handled (Go race detector, happens-before):\n%s", r.Text)
+		}
+	}
+	left := w.Finish()
+	if len(left) > 0 {
+		fail("teardown", "threads-left:"+leftoverClass(left), "threads never finished: %s", leftoverString(left))
+	}
+	out.Points, out.Steps, out.HitCap = s.Points, s.Steps, s.HitCap
+	out.Violations = x.V
+	out.Key = fmt.Sprint(len(x.V))
+	return out
+}
+
+func init() {
+	check.Register("c18overlap", func(j *check.Job) *check.Result {
+		res := &check.Result{Exhaustive: true, Extra: map[string]any{}, Bound: 2}
+		rw := newRaceWatch()
+		seen := map[string]bool{}
+		dedup := map[string]bool{}
+		for variant := 0; variant < 3; variant++ {
+			variant := variant
+			st := explore.Explore(func(ch vrt.Chooser) explore.Outcome { return runLatencyOverlap(variant, ch, rw, seen) }, explore.Config{Bound: 2})
+			res.Executions += st.Executions
+			res.States += st.Executions
+			res.Transitions += st.Points + st.Executions
+			res.Steps += st.Steps
+			if !st.Exhaustive {
+				res.Exhaustive, res.CapHit = false, st.CapHit
+			}
+			for _, f := range st.Found {
+				if !dedup[f.Oracle+f.Detail] {
+					dedup[f.Oracle+f.Detail] = true
+					res.Violations = append(res.Violations, check.Violation{Scenario: j.Name, Oracle: f.Oracle, Detail: f.Detail, Info: fmt.Sprintf("after %d answered rounds: %s", variant, f.Info), Replay: &check.Replay{Choices: trimZeros(f.Prefix)}})
+				}
+			}
+		}
+		res.Outcomes = len(dedup) + 1
+		res.Samples = []any{map[string]any{"history": "start(0xAAA1,3); answer k rounds; [start(0xBBB2,3) + answer to the outstanding ping] back to back; play to the end", "k": []int{0, 1, 2}}}
+		return res
+	})
+	check.WrapPlanner("C18", func(tier string, jobs []check.Job) []check.Job {
+		return append(jobs, check.Job{Kind: "c18overlap", Name: "S2:latency-restart-vs-ping-answer", BudgetS: 300}, check.Job{Kind: "c18overlap", Name: "S2:latency-restart-vs-ping-answer+race", BudgetS: 300, Race: true})
+	})
+}
